@@ -116,6 +116,16 @@ theorem getFieldString_refines_manual (h : Heap N) (obj : V N) (key : String) :
     getFieldString h obj key = gettable h MAXTAGLOOP obj (.str key) := by
   unfold getFieldString; rw [fuel_is_documented_depth]; exact index_chain h _ _ obj
 
+/-- method-call syntax: `obj:name(…)` (OP_SELF) fetches the method exactly as `obj.name` (OP_GETTABLEKS) does, for
+    every receiver (strings, numbers, … with per-type metatables included) and every `__index` shape … -/
+theorem self_is_plain_index (h : Heap N) (obj : V N) (key : String) :
+    opSelf h obj key = getFieldString h obj key := rfl
+
+/-- … hence by the manual's `gettable_event` chain. -/
+theorem self_refines_manual (h : Heap N) (obj : V N) (key : String) :
+    opSelf h obj key = gettable h MAXTAGLOOP obj (.str key) :=
+  getFieldString_refines_manual h obj key
+
 /-- **dispatch_refines_manual (newindex)** — `setField` (OP_SETTABLE, `LState.SetTable`) -/
 theorem setField_refines_manual (h : Heap N) (obj key value : V N) :
     setField h obj key value = settable h MAXTAGLOOP obj key value := by
